@@ -166,6 +166,13 @@ def check(case):
 
         from mc import expr as X_
 
+        # ... and used: a short simulation whose result views are read (they evaluate the model)
+        try:
+            res0 = Simulator(m).simulate(0.25, steps=2).get_result().unwrap_or_err()
+            res0.variables  # noqa: B018
+            res0.fluxes  # noqa: B018
+        except Exception:  # noqa: BLE001 - whether the integration succeeds is not the subject here
+            pass
         spec2 = copy.deepcopy(spec)
         by_name = {c["name"]: c for c in spec2["decl"]}
         for edit in ("rate-law", "derived-function", "parameter-value", "initial-value"):
